@@ -187,6 +187,22 @@ pub fn check_fine(v: V3, r: i32) -> (u64, Vec<Viol>) {
     };
     let vv = rg::ll_to_vec(lon, lat);
     let s0 = strict_in(vv);
+    // no gap: some cell of the neighbourhood (it includes the cell the lookup of the point itself
+    // returns) contains the point within the band
+    {
+        let mut best = f64::NEG_INFINITY;
+        for g in &geoms {
+            if let Ok(p) = subj::forward(vv, g.face) {
+                if p[0] * p[0] + p[1] * p[1] > 1.2 {
+                    continue;
+                }
+                best = best.max(rg::signed_dist_convex(&g.poly, p) / g.diam.max(1e-300));
+            }
+        }
+        if !(best >= -1e-6) {
+            out.push(viol("C03/gap", format!("no cell of the two-ring neighbourhood found by lookups at resolution {} contains the point ({} candidate cells, best signed distance {:.3e} cell diameters)", r, geoms.len(), best), case.clone()));
+        }
+    }
     if s0.len() > 1 {
         out.push(viol("C03/overlap", format!("point lies strictly inside {} cells of resolution {}: {:?}", s0.len(), r, s0.iter().map(|&c| subj::hex(c)).collect::<Vec<_>>()), case.clone()));
     }
@@ -251,7 +267,7 @@ pub fn check_fine(v: V3, r: i32) -> (u64, Vec<Viol>) {
     (geoms.len() as u64, out)
 }
 
-pub fn run(tier: &str) -> Report {
+pub fn run(tier: &str, verif_dir: &str) -> Report {
     let mut rep = Report::new("exploration");
     let fr = rg::frame();
     let rmax = if tier == "quick" { 4 } else { 6 };
@@ -343,9 +359,29 @@ pub fn run(tier: &str) -> Report {
         rep.sink.extend(vs);
         evals += sub.len() as u64;
     }
+    // (vi) word-aligned cells (low 8..20 curve digits all 0 or all 3, resolutions 10..29): the place where
+    // the reference release puts such a cell (frozen centre of golden/cells2.bin) must be covered by exactly
+    // one cell of its neighbourhood
+    let mut aligned = 0u64;
+    if let Ok((cells, _)) = super::golden::load_second_generation(&format!("{}/golden", verif_dir)) {
+        let step = if tier == "quick" { 4 } else { 1 };
+        let recs: Vec<(V3, i32)> = cells.iter().step_by(step).filter_map(|r| rc::resolution(r.id).map(|res| (rg::ll_to_vec(r.centre.0, r.centre.1), res))).collect();
+        aligned = recs.len() as u64;
+        let vs: Vec<Viol> = recs
+            .par_iter()
+            .flat_map(|(v, r)| {
+                let (n, out) = check_fine(*v, *r);
+                fine_cells.fetch_add(n, Ordering::Relaxed);
+                out
+            })
+            .collect();
+        rep.sink.extend(vs);
+        evals += aligned;
+    }
+    rep.set("word_aligned_cell_places_checked", json!(aligned));
     rep.set("evaluations", json!(evals + pairs.load(Ordering::Relaxed)));
     rep.set("distinct_nontrivial", json!(hard + pairs.load(Ordering::Relaxed)));
-    rep.set("rule", json!(format!("for every resolution 0..{}: (i) all pairs of cells of each face with intersecting bounding boxes, planar clipped overlap <= 1e-9 cell areas; (ii) 7 strict-interior points of every cell searched in ALL cells of the three nearest faces: strictly inside no other cell; (iii, r<=5) every point of the sphere lattice ({} points incl. frame vertices, edges, seams, caps) searched exhaustively in all cells of the three nearest faces: in >=1 cell within the band, strictly in <=1; (iv, r<=3) signed areas sum to 4 pi; (v) at r in {:?}: two-ring neighbourhoods found by lookup around {} points, strict containment exclusive; distinct_nontrivial = candidate pairs clipped + lattice points on case splits", rmax, pts.len(), fine_res, sub.len())));
+    rep.set("rule", json!(format!("for every resolution 0..{}: (i) all pairs of cells of each face with intersecting bounding boxes, planar clipped overlap <= 1e-9 cell areas; (ii) 7 strict-interior points of every cell searched in ALL cells of the three nearest faces: strictly inside no other cell; (iii, r<=5) every point of the sphere lattice ({} points incl. frame vertices, edges, seams, caps) searched exhaustively in all cells of the three nearest faces: in >=1 cell within the band, strictly in <=1; (iv, r<=3) signed areas sum to 4 pi; (v) at r in {:?}: two-ring neighbourhoods found by lookup around {} points, strict containment exclusive and no gap at the point; (vi) the same around the frozen reference centres of word-aligned cells (r 10..29); distinct_nontrivial = candidate pairs clipped + lattice points on case splits", rmax, pts.len(), fine_res, sub.len())));
     rep.set("exhaustive", json!(true));
     rep.set("exhaustive_scope", json!(format!("all cells x all cells of a face for r<={}; lattice points only for the no-gap claim", rmax)));
     rep.set("pairs_clipped", json!(pairs.load(Ordering::Relaxed)));
